@@ -5,6 +5,9 @@ Line protocol of the record-store model (`drv_store`), one output line per op li
 
 ```
 init <max> <cache> <peer> [<maxval>]  fresh store (shipped constants / feature flag; max_value_bytes) -> ok
+initcmd <max> <cache> <peer>   fresh node SwarmDriver; `cput`, `remove`, `deliver`, `get`, `contains`, `addrs`, `cleanup`,
+                               `payment` go through the real `handle_local_cmd`                 -> ok
+cput <k> <v>                   LocalSwarmCmd::PutLocalRecord (type derived from the header)     -> ok | dedup | max | bad-header
 kadput <k> <v>                 RecordStore::put (unverified path): only its size test       -> ok | too-large
 len <v>                        length in bytes of value #v                                  -> <n>
 key <k> <dist>                 distance of key k to the node (data from the harness)  -> ok
@@ -100,6 +103,20 @@ def step (d : DSt) (ws : List String) : DSt × String :=
       let cfg := Cfg.shippedV m c mv
       ({ dists := [], cfg := cfg, st := SafeNet.Store.init cfg (fun _ => 0) }, "ok")
     | _, _, _ => (d, "bad-op")
+  | ["initcmd", m, c, _peer] =>
+    -- a real node `SwarmDriver` (build_node): same store, commands go through the real handlers
+    match m.toNat?, c.toNat? with
+    | some m, some c =>
+      let cfg := Cfg.shipped m c
+      ({ dists := [], cfg := cfg, st := SafeNet.Store.init cfg (fun _ => 0) }, "ok")
+    | _, _ => (d, "bad-op")
+  | ["cput", k, v] =>
+    match k.toNat?, v.toNat? with
+    | some k, some v =>
+      match putLocalRecordType v with
+      | some rt => apply d (.put k v rt)
+      | none => (d, "bad-header")
+    | _, _ => (d, "bad-op")
   | ["kadput", k, v] =>
     match k.toNat?, v.toNat? with
     | some _, some v => (d, if kadPutTooLarge d.cfg v then "too-large" else "ok")
